@@ -504,7 +504,7 @@ def run_property(prop_id, tier, instances, level="model_checking", assumptions=N
             r.notes.append("could not persist replay: %s" % e)
         f["replay"] = dst
         out_lines.append("VIOLATION property=%s replay=%s" % (prop_id, dst))
-        print("  instance=%s  %s  [%s:%s %s]  input=%s" % (r.inst.name, f.get("description"), os.path.basename(f.get("file") or "?"),
+        if n < 15: print("  instance=%s  %s  [%s:%s %s]  input=%s" % (r.inst.name, f.get("description"), os.path.basename(f.get("file") or "?"),
                                                             f.get("line"), f.get("function"), f.get("decoded") or f.get("input_hex")))
     for l in known_lines:
         print(l)
@@ -515,8 +515,10 @@ def run_property(prop_id, tier, instances, level="model_checking", assumptions=N
             if not f.get("confirmed"):
                 print("UNCONFIRMED instance=%s %s [%s:%s] native=%s input=%s" % (r.inst.name, f.get("description"),
                       os.path.basename(f.get("file") or "?"), f.get("line"), f.get("native"), f.get("decoded") or f.get("input_hex")))
-    for l in out_lines:
+    for l in out_lines[:15]:
         print(l)
+    if len(out_lines) > 15:
+        print("(%d more violations recorded in the evidence file and under %s)" % (len(out_lines) - 15, replay_keep))
     # ---- evidence ----
     obligations = sum(r.obligations for r in runs)
     discharged = sum(r.discharged for r in runs)
